@@ -146,7 +146,7 @@ package keeper
 //@ modifies raw
 //@ ensures [C09] only_paused: err == NoErr ==> ctxFound(old(raw), requestContextID) && ctxOf(old(raw), requestContextID).State == PAUSED
 //@ ensures [C05] module_context_needs_consumer: err == NoErr ==> (let c := ctxOf(old(raw), requestContextID) in len(c.ModuleName) > 0 ==> addrEq(consumer, c.Consumer))
-//@ ensures [C09,C10,C11,C16] running_and_requeued_iff_nothing_pending: err == NoErr ==> (let c := ctxOf(old(raw), requestContextID) in
+//@ ensures [C09,C10,C11,C16,C08] running_and_requeued_iff_nothing_pending: err == NoErr ==> (let c := ctxOf(old(raw), requestContextID) in
 //@      let r1 := old(raw)[KCtx(requestContextID) := enc_RequestContext(c[State := RUNNING])] in
 //@      raw == ((!hasExp(old(raw), requestContextID) && !hasNew(old(raw), requestContextID))
 //@               ? r1[KNewQ(ctxHeight(ctx), requestContextID) := idVal(requestContextID)][KNewH(requestContextID) := hVal(ctxHeight(ctx))] : r1))
